@@ -1143,6 +1143,8 @@ class Evaluator:
             return App("hashobj", (args[0],), e)
         if dotted in ("uuid.uuid5",) and len(args) == 2:
             return App("uuid5", args, e)
+        if dotted in ("bytes.fromhex", "bytearray.fromhex", "binascii.unhexlify") and len(args) == 1 and not isinstance(args[0], Const):
+            dotted = "binascii.a2b_hex"  # the same conversion of a hex string (of x.hex()) back to bytes
         if dotted == "binascii.a2b_hex" and len(args) == 1:
             a = args[0]
             if isinstance(a, App) and a.op == "meth:hex":
